@@ -26,6 +26,8 @@ REGISTRY = {
     "C10": ("nixmc.props.c10", {}),
     "C11": ("nixmc.props.c10", {}),
     "C15": ("nixmc.props.c15", {}),
+    "C16": ("nixmc.props.c16", {}),
+    "C17": ("nixmc.props.c17", {}),
 }
 
 
